@@ -25,6 +25,7 @@ Inductive pop :=
 | PAssign (p q : nat)         (* P[p] = std::move(P[q]) *)
 | PAssignGet (p c : nat)      (* P[p] = F[c].get_promise() *)
 | PDestroy (p : nat)          (* P[p].~promise() *)
+| PUnwind (p : nat)           (* try { promise<T> local(std::move(P[p])); throw 1; } catch (int) {} : ~promise during stack unwinding *)
 | PVal (p : nat) (v : Z)      (* P[p](v) *)
 | PExc (p : nat) (e : Z)      (* P[p](exception_ptr) *)
 | PDrop (p : nat)             (* P[p](drop) *)
@@ -46,6 +47,7 @@ Definition decode (l : list Z) : pop :=
   | [3; p; q] => if nonneg [p; q] then PAssign (zn p) (zn q) else PBad
   | [4; p; c] => if nonneg [p; c] then PAssignGet (zn p) (zn c) else PBad
   | [5; p] => if nonneg [p] then PDestroy (zn p) else PBad
+  | [12; p] => if nonneg [p] then PUnwind (zn p) else PBad
   | [6; p; v] => if nonneg [p] then PVal (zn p) v else PBad
   | [7; p; e] => if nonneg [p] then PExc (zn p) e else PBad
   | [8; p] => if nonneg [p] then PDrop (zn p) else PBad
@@ -132,6 +134,11 @@ Definition pstep (isvoid : bool) (s : pst) (x : pop) : pst * list Z :=
   | PDestroy p =>      (* ~promise: m = _owner.load(); if (m) m->resolve(), future.h:601-606 *)
       match nth_error (proms s) p with
       | Some (Some op) => let '(s1, d, _) := fire isvoid s op None in (set_prom s1 p None, 0 :: d)
+      | _ => (s, rejected)
+      end
+  | PUnwind p =>       (* the move constructor claims P[p]; the local promise is destroyed while the exception propagates *)
+      match nth_error (proms s) p with
+      | Some (Some op) => let '(s1, d, _) := fire isvoid s op None in (set_prom s1 p (Some None), 0 :: d)
       | _ => (s, rejected)
       end
   | PVal p v =>        (* set_value: m = claim(); if (m) { m->set(v); m->resolve() -> true } else false, future.h:644-651 *)
@@ -271,6 +278,8 @@ Definition spec_step (isvoid : bool) (s : ospec) (x : pop) : ospec * list Z :=
       else (s, rejected)
   | PDestroy p =>
       if live s p && Nat.ltb p NPROM then let '(s1, d) := spec_drop isvoid s p in (set_own s1 p None, 0 :: d) else (s, rejected)
+  | PUnwind p =>
+      if live s p && Nat.ltb p NPROM then let '(s1, d) := spec_drop isvoid s p in (set_own s1 p (Some None), 0 :: d) else (s, rejected)
   | PVal p v => if Nat.ltb p NPROM then call p (OVal v) (Some None) else (s, rejected)
   | PExc p e => if Nat.ltb p NPROM then call p (OExc e) (Some None) else (s, rejected)
   | PDrop p => if Nat.ltb p NPROM then call p ONone (Some None) else (s, rejected)
